@@ -188,6 +188,12 @@ class C13(Check):
         plan["switches"] = sw
         plan["stack"] = rng.random() < 0.2
         plan["net_seed"] = rng.getrandbits(30)
+        # overlap stratum: two testers on one ECU whose handlers take time, so that a request of the second tester is served
+        # while one of the first is suspended in its handler (all default behaviours on; drawn below, after the history)
+        plan["overlap"] = index > len(SWITCHES) and index % 25 != 10 and rng.random() < 0.12
+        if plan["overlap"]:
+            plan["stack"] = True
+            plan["switches"] = sw = {s: True for s in SWITCHES}
         srv = RandomUDSServer(plan["ecu_seed"], RandomUDSServer.RandomnessParameters(**plan["params"]))
         try:
             srv.randomize()
@@ -195,6 +201,22 @@ class C13(Check):
         except Exception:  # noqa: BLE001
             services = {1: {0x10: [1]}}
         plan["ops"] = gen_history(rng, services, rng.choice([1, 5, 20, 40, 80] if tier == "quick" else [20, 80, 150, 300]))
+        if plan["overlap"]:
+            sessions_ = sorted(services)
+            for op in plan["ops"]:
+                if "dyn" in op or rng.random() < 0.5:
+                    continue
+                a_sid = rng.choice([0x22, 0x22, 0x2E, 0x31, 0x31, 0x19, 0x14, 0x2F])
+                a = {0x22: lambda: bytes([0x22]) + rng.choice([b"\xf1\x90", bytes(rng.getrandbits(8) for _ in range(2))]),
+                     0x2E: lambda: bytes([0x2E, rng.getrandbits(8), rng.getrandbits(8)]) + bytes(rng.getrandbits(8) for _ in range(rng.choice([1, 4]))),
+                     0x31: lambda: bytes([0x31, rng.choice([0x01, 0x81, 0x02, 0x83]), rng.getrandbits(8), rng.getrandbits(8)]),
+                     0x19: lambda: bytes([0x19, rng.choice([0x02, 0x82, 0x0A, 0x8A])]) + (b"\xff" if rng.random() < 0.7 else b""),
+                     0x14: lambda: bytes([0x14, 0xFF, 0xFF, 0xFF]),
+                     0x2F: lambda: bytes([0x2F, rng.getrandbits(8), rng.getrandbits(8), 0x00])}[a_sid]()
+                b = rng.choice([b"\x3e\x00", b"\x3e\x80", b"\x22\xf1\x86", b"\x11\x01", b"\x11\x81",
+                                bytes([0x10, rng.choice(sessions_)]), bytes([0x10, rng.choice(sessions_) | 0x80]), bytes([0x10, rng.randrange(1, 0x7F)])])
+                op.clear()
+                op.update({"pdu": a.hex(), "gap": 0, "with": b.hex(), "delay": rng.choice([0.02, 0.05, 0.12])})
         # exhaustive sweeps (every 25th plan): after a short random prefix that may change the state, EVERY service id
         # 0x00-0xFF with a payload of 0-3 bytes, or every sub-function byte 0x00-0xFF of one sub-function service
         if index % 25 == 10:
@@ -241,8 +263,21 @@ class C13(Check):
             seams.set(server_mod, "time", lambda: EPOCH + loop.time())
             seed_unseeded_rng(seams, plan["net_seed"])
             behavior = UDSServer.Behavior(**sw)
+            slow: dict[bytes, float] = {}
+
+            class SlowECU(RandomUDSServer):
+                """gallia's random ECU whose handlers need time for the requests named in `slow` (what a database-backed or a
+                user-written virtual ECU does on every request): the only place where two requests can overlap."""
+
+                async def respond_after_default(self, request: Any) -> Any:
+                    d_ = slow.get(bytes(request.pdu))
+                    if d_:
+                        rec.rec("handler_suspended", pdu=bytes(request.pdu))
+                        await asyncio.sleep(d_)
+                    return await super().respond_after_default(request)
+
             try:
-                server = RandomUDSServer(plan["ecu_seed"], RandomUDSServer.RandomnessParameters(**plan["params"]), behavior)
+                server = (SlowECU if plan.get("overlap") else RandomUDSServer)(plan["ecu_seed"], RandomUDSServer.RandomnessParameters(**plan["params"]), behavior)
                 await server.setup()
             except Exception as e:  # noqa: BLE001
                 rec.rec("setup_failed", error=type(e).__name__)
@@ -277,8 +312,31 @@ class C13(Check):
                     pdu = bytes.fromhex(op["pdu"])
                 idle = loop.time() - last_active
                 rec.rec("req", n=n, pdu=pdu)
+                pair = None
+                if op.get("with") and plan["stack"]:
+                    try:
+                        a_parsable = not isinstance(service.UDSRequest.parse_dynamic(pdu), service.RawRequest)
+                    except Exception:  # noqa: BLE001
+                        a_parsable = False
+                    if idle <= 10.0 and model_reply(services, m_session, sw, pdu, a_parsable)[0] == "delegated":
+                        # tester 0 sends A, whose handler takes `delay`; while it is suspended tester 1 sends B (judged below
+                        # like any other request); A's own reply is read and judged afterwards
+                        pair = {"a": pdu, "a_parsable": a_parsable, "session": m_session, "state": (m_session, m_level)}
+                        slow[pdu] = op["delay"]
+                        await clients[0].write(pdu)
+                        await asyncio.sleep(0.008)
+                        pdu = bytes.fromhex(op["with"])
+                        rec.rec("req_overlapping", n=n, pdu=pdu)
                 try:
-                    if plan["stack"]:
+                    if pair is not None:
+                        await clients[1].write(pdu)
+                        try:
+                            reply = await clients[1].read(timeout=0.3)
+                        except TimeoutError:
+                            reply = None
+                        if reply == b"":
+                            raise ConnectionError("server closed the connection")
+                    elif plan["stack"]:
                         c = clients[n % 2]
                         await c.write(pdu)
                         try:
@@ -348,6 +406,32 @@ class C13(Check):
                     break
                 if reply is not None and len(reply) >= 2 and reply[0] == 0x67 and reply[1] % 2 == 1:
                     last_seed = reply[2:]
+                if pair is not None:
+                    # now A: its handler was suspended while B was served
+                    suspended = any(e[3] == "handler_suspended" for e in rec.events[-12:])
+                    try:
+                        reply_a: bytes | None = await clients[0].read(timeout=0.5)
+                    except TimeoutError:
+                        reply_a = None
+                    slow.pop(pair["a"], None)
+                    last_active = loop.time()
+                    rec.rec("rep_first", n=n, pdu=reply_a)
+                    if reply_a == b"":
+                        violation(res, "C13/raised", "C13/raised:connection-dropped:overlap", f"the server dropped the connection of the tester whose request {pair['a'].hex()} was being handled")
+                        break
+                    bump(res["probes"], "request_served_while_another_is_suspended_in_its_handler" if suspended else "pair_without_suspension")
+                    v = self._check_reply("delegated", None, pair["a"], reply_a, sw, pair["session"], pair["a_parsable"])
+                    if v is not None and not v.startswith("session-read"):
+                        violation(res, "C13/model", f"C13/model:overlap:{v.split(':')[0]}",
+                                  f"op {n}: {v} - its handler was suspended while {pdu.hex()} of a second tester was served (-> {reply.hex() if reply else None})")
+                        break
+                    # A does not change the state (it is no session change, reset or key): the state is what B left
+                    got_state = (server.state.session, server.state.security_access_level)
+                    if got_state != (m_session, m_level):
+                        violation(res, "C13/model", "C13/model:overlap:state",
+                                  f"op {n}: after {pair['a'].hex()} (handler suspended) and {pdu.hex()} -> {reply.hex() if reply else None} of a second tester the server state is {got_state}, "
+                                  f"the positive replies imply {(m_session, m_level)} (state before the pair: {pair['state']})")
+                        break
             for c in clients:
                 await c.close()
             return None
